@@ -258,7 +258,38 @@ def check(case):
     after = build.obs_node(c.ast.root)
     if after != before:
         out.append(("C18.constraint-modified", ""))
+    # the same Constraint object with its formula replaced through the public `ast` property: every report must be
+    # about the formula it has now (compared with a fresh Constraint of that formula)
+    e2 = _variant(e)
+    from flamapy.core.models.ast import AST
+    if not isinstance(lib(setattr, c, "ast", AST(build.build_node(e2))), Raised):
+        fresh = build.build_constraint({"name": "K", "ast": e2})
+        for q in QUERIES + ("get_features",):
+            a, b = lib(getattr(c, q)), lib(getattr(fresh, q))
+            if isinstance(a, Raised) or isinstance(b, Raised):
+                if isinstance(a, Raised) != isinstance(b, Raised):
+                    out.append((f"C18.after-formula-replaced.{q}", "raises on one of the two objects only"))
+                continue
+            if (sorted(a) if isinstance(a, list) else a) != (sorted(b) if isinstance(b, list) else b):
+                out.append((f"C18.after-formula-replaced.{q}", f"edited object {a!r:.60}, fresh constraint {b!r:.60} for {logic.canon(e2)[:120]}"))
     return out
+
+
+QUERIES = ("is_logical_constraint", "is_arithmetic_constraint", "is_aggregation_constraint",
+           "is_single_feature_constraint", "is_simple_constraint", "is_complex_constraint",
+           "is_requires_constraint", "is_excludes_constraint", "is_pseudocomplex_constraint",
+           "is_strictcomplex_constraint")
+
+
+def _variant(e):
+    """A different formula derived from e (pure function): binary logical root -> operands swapped under the next
+    logical operator; otherwise e below a NOT (logical e) or e's first operand."""
+    if e[0] in logic.BINARY_LOGICAL:
+        ops = list(logic.BINARY_LOGICAL)
+        return [ops[(ops.index(e[0]) + 3) % len(ops)], e[2], e[1]]
+    if logic.is_logical(e):
+        return ["IMPLIES", e, ["T", "Zz"]] if e[0] == "NOT" else ["NOT", e]
+    return e[1] if e[0] not in logic.LEAF else ["NOT", e]
 
 
 def _equiv_conj(parts, e):
